@@ -18,7 +18,7 @@ SUBS.append(dict(name="ctxlong-O2", quick=dict(cases=1, shards=2), thorough=dict
 FILES = {"sha256.c", "sha256_shani.c", "sha256_sse2.c", "sha1.c", "md5.c", "crypto_aes.c", "crypto_aes_aesni.c", "crypto_aesctr.c",
          "crypto_aesctr_aesni.c", "crypto_dh.c", "crypto_dh_group14.c", "aws_readkeys.c", "cpusupport_x86_aesni.c",
          "cpusupport_x86_shani.c", "cpusupport_x86_sse2.c", "cpusupport_x86_ssse3.c", "insecure_memzero.c", "warnp.c"}
-WRAPS = ["malloc", "calloc", "realloc", "free"]
+WRAPS = ["malloc", "calloc", "realloc", "free", "fgets", "ferror"]
 
 
 def build(B):
